@@ -60,8 +60,9 @@ def get_app(integration: str, status: str, base: str, codec: str = 'default', pr
     """returns (post(path_kind, body, content_type) -> (status, content_type, body bytes), dispatcher_for(path_kind))"""
     # nested: the extra endpoint lives on an aiohttp sub-application / a flask blueprint (documented add_endpoint arguments)
     key = (integration, status, base, codec, prefix_style, nested, os.getpid())
-    # the extra endpoint is registered as '/sub' or as '/sub/' (both are documented to serve <base>/sub)
-    reg_prefix = PREFIX + ('/' if prefix_style == 'trailing-slash' else '')
+    # the extra endpoint is registered as '/sub', as '/sub/' or as 'sub' (prefixes are joined to the base path by exactly one slash, so
+    # all of them serve <base>/sub)
+    reg_prefix = PREFIX + '/' if prefix_style == 'trailing-slash' else PREFIX.lstrip('/') if prefix_style == 'no-leading-slash' else PREFIX
     if key in _APPS:
         return _APPS[key]
     fn = STATUS_FUNCS[status]
